@@ -234,6 +234,7 @@ Definition bridged : Core.runtime := {|
   Core.values_scalar := Core.values_scalar base;
   Core.items_scalar := Core.items_scalar base;
   Core.pairlike_scalar := Core.pairlike_scalar base;
+  Core.unpack_scalar := Core.unpack_scalar base;
   Core.index := Core.index base;
   Core.unhashable_class := Core.unhashable_class base;
   Core.atom_eq := Core.atom_eq base;
@@ -404,6 +405,7 @@ Definition ex_base : Core.runtime := {|
   Core.leaf_u := fun _ _ => Core.Unmodelled; Core.leaf_m := fun _ _ => Core.Unmodelled;
   Core.none_u := fun _ => Core.Unmodelled; Core.load_scalar := fun x => Core.Ok x;
   Core.values_scalar := fun _ => Core.Raise Core.EType; Core.items_scalar := fun _ => Core.Raise Core.EType;
+  Core.unpack_scalar := fun _ => Core.Raise Core.EType;
   Core.pairlike_scalar := fun _ => false; Core.index := fun i => Core.PAtom i;
   Core.unhashable_class := fun _ => false; Core.atom_eq := fun _ _ => false; Core.none := Core.PAtom 0;
   Core.suppressed := fun _ => true |}.
